@@ -679,6 +679,237 @@ def rule_r5(repo):
     rr.require_floor(1)
     return rr
 
+# ---------------------------------------------------------------------------
+# thorough tier: the differential over every sequence of every bundled Table D (the property's own program family)
+def _td_build(ids, seqs, units, depth=0):
+    """Descriptor objects for a member id list (FM-94 replication ownership; sequences expanded recursively from `seqs`)."""
+    if depth > 30:
+        raise AnalysisError('bundled Table D nests deeper than 30 levels')
+    pos = [0]
+
+    def one():
+        i = ids[pos[0]]
+        pos[0] += 1
+        if i >= 300000:
+            key = '%06d' % i
+            if key not in seqs:
+                return Obj('UndefinedSequenceDescriptor', {'id': i})
+            return Obj('SequenceDescriptor', {'id': i, 'name': 'seq', 'members': _td_build([int(m) for m in seqs[key][1]], seqs, units, depth + 1)})
+        if i >= 200000:
+            return operator(i // 1000, i % 1000)
+        if i >= 100000:
+            x = i // 1000 % 100
+            if i % 1000 == 0:
+                f = ids[pos[0]]
+                pos[0] += 1
+                factor = element(f, unit=units.get(f, 'NUMERIC'))
+                members = [one() for _ in range(x) if pos[0] < len(ids)]
+                return Obj('DelayedReplicationDescriptor', {'id': i, 'members': members, 'factor': factor})
+            members = [one() for _ in range(x) if pos[0] < len(ids)]
+            return Obj('FixedReplicationDescriptor', {'id': i, 'members': members})
+        if i not in units:
+            return Obj('UndefinedElementDescriptor', {'id': i})
+        return element(i, unit=units[i])
+    out = []
+    while pos[0] < len(ids):
+        out.append(one())
+    return out
+
+
+def _td_key(members):
+    out = []
+    for m in members:
+        f = m.fields
+        if 'members' in f:
+            fac = f.get('factor')
+            out.append((m.cls, f['id'], (fac.fields['id'], fac.fields['unit']) if isinstance(fac, Obj) else None, _td_key(f['members'])))
+        else:
+            out.append((m.cls, f['id'], f.get('unit')))
+    return tuple(out)
+
+
+def _td_crosses_scope(members, pending=0):
+    """True when a 221YYY count runs into a replication, or an operator is opened inside a replication and not closed there
+    (the domain exclusion of the property: operators opened and closed within one replication scope)."""
+    count = pending
+    for m in members:
+        f = m.fields
+        if m.cls == 'OperatorDescriptor' and f['id'] // 1000 == 221:
+            count = f['id'] % 1000
+            continue
+        if m.cls in ('FixedReplicationDescriptor', 'DelayedReplicationDescriptor'):
+            if count > 0:
+                return True
+            if _td_crosses_scope(f['members']) or _td_open_ops(f['members']):
+                return True
+        elif m.cls == 'SequenceDescriptor':
+            if _td_crosses_scope(f['members'], count):
+                return True
+            count = max(0, count - _td_count(f['members']))
+            continue
+        if count > 0:
+            count -= 1
+    return False
+
+
+def _td_count(members):
+    n = 0
+    for m in members:
+        if m.cls == 'SequenceDescriptor':
+            n += _td_count(m.fields['members'])
+        else:
+            n += 1
+    return n
+
+
+def _td_flat(members):
+    for m in members:
+        if m.cls == 'SequenceDescriptor':
+            for x in _td_flat(m.fields['members']):
+                yield x
+        else:
+            yield m
+
+
+def _td_open_ops(members):
+    """Operators of a replication body that are still in force when the body ends."""
+    open_ = {}
+    for m in _td_flat(members):
+        if m.cls != 'OperatorDescriptor':
+            continue
+        code, y = m.fields['id'] // 1000, m.fields['id'] % 1000
+        if code in (201, 202, 203, 204, 207, 208):
+            if code == 204:
+                open_[204] = open_.get(204, 0) + (1 if y else -1)
+            elif code == 203:
+                if y == 0:
+                    open_.pop(203, None)
+                elif y != 255:
+                    open_[203] = 1
+            else:
+                open_[code] = 1 if y else 0
+    return any(v for v in open_.values())
+
+
+def _td_worker(job):
+    root, name, ids, seqs, units = job
+    from sa.model import Repo
+    repo = _REPOS.get(root)
+    if repo is None:
+        repo = _REPOS[root] = Repo(root)
+    members = _td_build(ids, seqs, units)
+    rr = RuleResult('C08.R8', '')
+    import sys
+    sys.setrecursionlimit(20000)
+    saved = (TraceInterp.MAX_DEPTH, TraceInterp.MAX_STEPS, TraceInterp.UNROLL_CAP)
+    # real sequences nest deeper and are far longer than the curated family (statement lists of several hundred entries)
+    TraceInterp.MAX_DEPTH, TraceInterp.MAX_STEPS, TraceInterp.UNROLL_CAP = 120, 100000000, 4000
+    try:
+        ok, detail = compare(repo, name, members, rr)
+    except AnalysisError as ex:
+        return name, None, str(ex)
+    finally:
+        TraceInterp.MAX_DEPTH, TraceInterp.MAX_STEPS, TraceInterp.UNROLL_CAP = saved
+    return name, ok, detail
+
+
+_REPOS = {}
+
+
+def rule_r8(repo):
+    """Thorough tier: compile / replay differential with every distinct sequence of every bundled Table D as the template."""
+    import glob
+    import json
+    import multiprocessing
+    import os
+    rr = RuleResult('C08.R8', 'compile / replay differential over every sequence of every bundled Table D')
+    base = os.path.join(repo.root, 'pybufrkit', 'tables')
+    if not os.path.isdir(base):
+        rr.note('no tables directory under %s: rule not applicable to this copy' % repo.root)
+        return rr
+    jobs = {}
+    n_tables = n_seq = n_excluded = 0
+    for f in sorted(glob.glob(os.path.join(base, '*', '*', '*', 'TableD.json'))):
+        with open(f) as fh:
+            seqs = json.load(fh)
+        bf = os.path.join(os.path.dirname(f), 'TableB.json')
+        units = {}
+        parts = f.split(os.sep)
+        if parts[-3] != '0_0':
+            # local tables extend a master version: take the newest bundled master tables underneath
+            masters = sorted(glob.glob(os.path.join(base, parts[-4], '0_0', '*')), key=lambda p: int(os.path.basename(p)))
+            with open(os.path.join(masters[-1], 'TableB.json')) as fh:
+                units.update((int(k), v[1]) for k, v in json.load(fh).items())
+            with open(os.path.join(masters[-1], 'TableD.json')) as fh:
+                seqs = dict(json.load(fh), **seqs)
+        if os.path.exists(bf):
+            with open(bf) as fh:
+                units.update((int(k), v[1]) for k, v in json.load(fh).items())
+        n_tables += 1
+        label = '/'.join(parts[-4:-1])
+        for sid in sorted(seqs):
+            n_seq += 1
+            ids = [int(m) for m in seqs[sid][1]]
+            try:
+                members = _td_build(ids, seqs, units)
+            except IndexError:
+                continue
+            key = _td_key(members)
+            if key in jobs:
+                continue
+            if _td_crosses_scope(members) or any(m.cls.startswith('Undefined') for m in _all_descs(members)):
+                n_excluded += 1
+                jobs[key] = None
+                continue
+            used = _used_seqs(ids, seqs)
+            jobs[key] = (repo.root, '%s of %s' % (sid, label), ids, dict((k, seqs[k]) for k in used), dict((i, units[i]) for i in _used_ids(members) if i in units))
+    work = [j for j in jobs.values() if j is not None]
+    if len(work) < 300:
+        raise AnalysisError('only %d distinct bundled Table D sequences found under %s' % (len(work), base))
+    with multiprocessing.Pool(16) as pool:
+        results = pool.map(_td_worker, work, chunksize=4)
+    n_ok = 0
+    errs = []
+    for name, ok, detail in results:
+        if ok is None:
+            errs.append('%s: %s' % (name, detail))
+        elif ok:
+            n_ok += 1
+        else:
+            rr.fail('differential:bundled:%s' % name.split(' ')[0], 'pybufrkit/templatecompiler.py', 'Table D sequence %s: %s' % (name, detail), witness={'sequence': name})
+    if errs:
+        raise AnalysisError('bundled Table D differential: %d sequences could not be evaluated, first: %s' % (len(errs), errs[0]))
+    rr.instance('%d Table D files, %d sequences, %d distinct structures compared (%d outside the domain: operator scope crosses a replication, or undefined member)' % (
+        n_tables, n_seq, len(work), n_excluded))
+    rr.extra = {'tables': n_tables, 'sequences': n_seq, 'distinct_compared': len(work), 'agree': n_ok, 'excluded': n_excluded}
+    rr.require_floor(1)
+    return rr
+
+
+def _all_descs(members):
+    for m in members:
+        yield m
+        if 'members' in m.fields:
+            fac = m.fields.get('factor')
+            if isinstance(fac, Obj):
+                yield fac
+            for x in _all_descs(m.fields['members']):
+                yield x
+
+
+def _used_ids(members):
+    return set(m.fields['id'] for m in _all_descs(members))
+
+
+def _used_seqs(ids, seqs, acc=None):
+    acc = set() if acc is None else acc
+    for i in ids:
+        k = '%06d' % i
+        if i >= 300000 and k in seqs and k not in acc:
+            acc.add(k)
+            _used_seqs([int(m) for m in seqs[k][1]], seqs, acc)
+    return acc
+
 
 def run(repo, check):
     check.run_rule(rule_r1, repo)
@@ -686,6 +917,8 @@ def run(repo, check):
     check.run_rule(rule_r4, repo)
     check.run_rule(rule_r5, repo)
     check.run_rule(rule_r6, repo, check.tier)
+    if check.tier == 'thorough':
+        check.run_rule(rule_r8, repo)
     from sa.rules import c14
     from sa.rules.common import share
     share(check, repo, c14.rule_r2, 'C08.R7', 'the flattened descriptor list that keys the compiled-template cache is the original list (shared with C14.R2)')
